@@ -68,43 +68,72 @@ def run(repo, rep, tier):
     cenv = {'exitcodes.' + k: v for k, v in codes.items()}
 
     # ---- rule 1: fold lattice --------------------------------------------------------------------
+    # The per-name renderer is explored by the checker's path-forking interpreter: for every incoming status and every
+    # sequence of note levels (length 0..2 over fail/warn/info) every path must return max(incoming, levels) in the
+    # order GOOD < WARNING < FAILURE; a path that returns before the notes are folded (empty name) must return the
+    # incoming status unchanged.  The status variables are discovered from the return expressions.
     oa = repo.func('ssh_audit', 'output_algorithm')
     rep.saw(oa)
-    rn = returned_name(oa)
-    if len(rn) != 1 or None in rn:
-        raise AnalysisError('output_algorithm must return one status variable on all paths, returns %s' % rn)
-    var = rn.pop()
-    if var not in [a.arg for a in oa.args.args]:
-        raise AnalysisError('status variable %s of output_algorithm is not a parameter' % var)
-    loops = [n for n in walk_no_nested(oa) if isinstance(n, ast.For) and any(isinstance(x, ast.Assign) and any(unparse(t) == var for t in x.targets) for x in ast.walk(n))]
+    param = 'program_retval'
+    if param not in [a.arg for a in oa.args.args]:
+        raise AnalysisError('status parameter %s of output_algorithm vanished' % param)
+    loops = [n for n in walk_no_nested(oa) if isinstance(n, ast.For) and isinstance(n.target, ast.Tuple) and len(n.target.elts) == 2 and unparse(n.iter) == 'texts']
     if len(loops) != 1:
-        raise AnalysisError('expected exactly one loop folding the status in output_algorithm, found %d' % len(loops))
+        raise AnalysisError('expected exactly one loop over the (level, note) list in output_algorithm, found %d' % len(loops))
     loop = loops[0]
-    if not (isinstance(loop.target, ast.Tuple) and len(loop.target.elts) == 2 and isinstance(loop.target.elts[0], ast.Name)):
-        raise AnalysisError('fold loop target is not (level, text): %s' % stmt_text(loop))
     lvl = loop.target.elts[0].id
+    txtv = loop.target.elts[1].id
     texts_var = unparse(loop.iter)
-    # status assignments outside the fold loop are not allowed
-    for n in walk_no_nested(oa):
-        if isinstance(n, ast.Assign) and any(unparse(t) == var for t in n.targets):
-            inside = any(n is x for x in ast.walk(loop))
-            rep.check('fold', 'status assignment is inside the fold loop: %s' % stmt_text(n), inside, n, 'status variable %s is assigned outside the per-note fold loop' % var)
+    var = param
+    # tracked names: closure of names feeding the return expressions through status-like assignments
+    tracked = set()
+    work = set()
+    for r in walk_no_nested(oa):
+        if isinstance(r, ast.Return) and r.value is not None:
+            work |= {x.id for x in ast.walk(r.value) if isinstance(x, ast.Name)}
+    while work:
+        nm = work.pop()
+        if nm in tracked or nm in ('max', 'min', 'exitcodes'):
+            continue
+        tracked.add(nm)
+        for n in walk_no_nested(oa):
+            if isinstance(n, (ast.Assign, ast.AugAssign)) and any(unparse(t) == nm for t in (n.targets if isinstance(n, ast.Assign) else [n.target])):
+                work |= {x.id for x in ast.walk(n.value) if isinstance(x, ast.Name)} - tracked
+    tracked -= {lvl, txtv}
     rank = {codes['GOOD']: 0, codes['WARNING']: 1, codes['FAILURE']: 2}
     lvl_rank = {'info': 0, 'warn': 1, 'fail': 2}
     inv = {v: k for k, v in rank.items()}
+    import itertools as _it
+    from sa.abseval import explore
+    seqs = [()] + [(a,) for a in ('info', 'warn', 'fail')] + list(_it.product(('info', 'warn', 'fail'), repeat=2))
     table = []
-    for s in (codes['GOOD'], codes['WARNING'], codes['FAILURE']):
-        for L in ('info', 'warn', 'fail'):
+    bad = []
+    for s0 in (codes['GOOD'], codes['WARNING'], codes['FAILURE']):
+        for seq in seqs:
             env = dict(cenv)
-            env[var] = s
-            env[lvl] = L
-            fold_step(rep, loop.body, env, var)
-            want = inv[max(rank[s], lvl_rank[L])]
-            got = env[var]
-            table.append({'state': s, 'level': L, 'next': got, 'expected': want})
-            rep.check('fold', 'fold(%d,%s) = %d' % (s, L, want), got == want, loop,
-                      'severity fold is not max(GOOD<WARNING<FAILURE): state %d with a %s note becomes %r, expected %d' % (s, L, got, want))
-    rep.samples.append({'rule': 'fold', 'transition_table': table})
+            env[param] = s0
+            for t_ in tracked:
+                env.setdefault(t_, None)
+            env['out.verbose'] = False
+            bindings = [{lvl: L, txtv: 'note', 'text': 'note'} for L in seq]
+            try:
+                outs = explore(oa.body, env, tracked | {'first', 'use_good_for_all'}, loops={texts_var: bindings})
+            except Unknown as e:
+                raise AnalysisError('status fold of output_algorithm not interpretable: %s' % e)
+            rep.evals(len(outs))
+            for e2, outcome in outs:
+                if outcome != 'return':
+                    bad.append((s0, seq, 'path ends with %s' % outcome, None))
+                    continue
+                got = e2.get('<return>')
+                folded = texts_var in e2.get('<loops_done>', ())
+                want = inv[max([rank[s0]] + [lvl_rank[L] for L in seq])] if folded else s0
+                table.append({'in': s0, 'levels': list(seq), 'folded': folded, 'out': got if isinstance(got, int) else str(got)})
+                if got != want:
+                    bad.append((s0, seq, got, want, folded))
+    rep.check('fold', 'output_algorithm returns max(incoming status, note levels) on every path (%d abstract paths); the empty-name path returns the incoming status' % len(table), not bad, loop,
+              'severity fold broken: incoming status %s with notes %s %s returns %r, expected %r' % ((bad[0][0], list(bad[0][1]), '(folded)' if len(bad[0]) > 4 and bad[0][4] else '(early return before the notes are folded)', bad[0][2], bad[0][3]) if bad else (0, [], '', 0, 0)),
+              sample={'rule': 'fold', 'paths': len(table), 'examples': table[:6]})
     # the level values that can occur are exactly the three literals
     lit_levels = set()
     for n in walk_no_nested(oa):
@@ -113,7 +142,6 @@ def run(repo, rep, tier):
             if isinstance(first, ast.Constant):
                 lit_levels.add(first.value)
             elif isinstance(first, ast.Name):
-                # level variable of `for idx, level in enumerate([...])`
                 for f in walk_no_nested(oa):
                     if isinstance(f, ast.For) and first.id in [x.id for x in ast.walk(f.target) if isinstance(x, ast.Name)] and isinstance(f.iter, ast.Call) and f.iter.args and isinstance(f.iter.args[0], ast.List):
                         lit_levels |= {e.value for e in f.iter.args[0].elts if isinstance(e, ast.Constant)}
